@@ -31,7 +31,7 @@ CLASS_LAW = {
     "ExponentialPrior": ("exponential", {"scale": "beta"}),
     "UniformPrior": ("uniform", {"low": "lower", "high": "upper"}),
 }
-FLOORS = {"float-arithmetic": 2, "density-form": 3, "gradient-is-derivative": 3, "sampler-density-agreement": 3,
+FLOORS = {"float-arithmetic": 2, "density-form": 3, "gradient-is-derivative": 3, "sampler-density-agreement": 6,
           "bounds-are-support": 3, "support-guard": 2, "routing": 7, "posterior-sum": 4,
           "guess-order": 1, "combine-coverage": 2, "received-arrays": 4, "components-not-updated": 6, "negations": 2}
 
@@ -145,6 +145,13 @@ def run(prog, tier):
         c, sfn = prog.method(ci.name, "sample")
         ret = last_return(sfn)
         call = ret.value if ret else None
+        # successive calls give successive draws: the generator is the module's / the instance's, not one built (and seeded) in the call
+        made = [n for n in ast.walk(sfn) if isinstance(n, ast.Call) and U(n.func).split(".")[-1] in
+                ("default_rng", "RandomState", "Generator", "seed", "SeedSequence", "PCG64", "MT19937")]
+        obs.append(struct_ob("sampler-density-agreement", qual(c, sfn) + "[generator]", not made,
+                             f"`{U(made[0])[:80] if made else ''}` builds a generator inside sample(): with a fixed seed every call returns the "
+                             f"same vector (the draws are not samples of the prior), with none the module generator's seeding is bypassed",
+                             REL, made[0].lineno if made else sfn.lineno, tier="E"))
         ok_shape = (isinstance(call, ast.Call) and isinstance(call.func, ast.Attribute)
                     and call.func.attr in LAWS)
         if not ok_shape:
